@@ -3,18 +3,28 @@
  * the registered 5 s timer via the pump) on a real host or service with a real parent, downtime,
  * acknowledgement and authority changes under a virtual clock.
  *
- *   C <kind h|s> <max> <volatile> <flapping>
+ *   C <kind h|s> <max> <volatile> <flapping> [<check_interval s> [<scheduling offset>]]   (defaults 300, 0)
  *   R <state> <dt> <active> | <accepted> <state> <stype> <attempt> ; env: <reach> <indt> <acked> <wasflap> <isflap> <paused> ; <sup> <sbs> ; <notifs>
- *   F <dt> <viaTimer>      | env: <paused> <enabled> <statesupp> <indt> <isflap> <likely> <parentrecent> ; <sup> <sbs> ; <notifs>
+ *   F <dt> <viaTimer>      | env: <fired> <paused> <enabled> <statesupp> <indt> <isflap> <active_checks> <interval us> <next_check-now us> <parentrecent> ; <sup> <sbs> ; <IsLikelyToBeCheckedSoon()> ; <notifs>
  *   D+ <i> / D- <i>        downtime i (0/1) registered+triggered / removed
  *   A+ <sticky> <expiry-dt> / A-   acknowledge (expiry relative, 0 = none) / clear
  *   P <state>              parent (host of the service / parent host of the host) gets a hard result
  *   U <0|1>                authority (0 = paused)
  *   N <0|1>                enable_notifications
+ *   E <0|1>                enable_active_checks
+ *   X <dt>                 next_check := now + dt (the scheduler / a cluster peer moved the next check)
+ *   FR <dt> <state>        the handler runs and a check result <state> is processed by "another thread" between the handler's
+ *                          read of suppressed_notifications (checkable-notification.cpp:143) and its write (:237-245): the
+ *                          result is processed inside the handler's first OnNotificationsRequested callback (no lock is
+ *                          held there); if the handler requests nothing, or flapping bits are stashed, right after it.
+ *                          | <fenv before: 10 fields as F> ; <fenv after> ; <interleaved> <accepted> <state> <stype> <attempt> ; <renv as R> ; <sup> <sbs> ; <notifs>
+ *   Y <sup> <sbs>          suppressed_notifications / state_before_suppression overwritten, as the state-file restore and
+ *                          the cluster handlers event::SetSuppressedNotifications / SetStateBeforeSuppression do
  * notifs: comma separated <type>:<state> in emission order, '-' if none; sup = suppressed_notifications bitmask.
  * Lines other than R/F echo as "<op> |" (no observation).
  */
 #include "common.hpp"
+#include <cmath>
 #include "icinga/dependency.hpp"
 #include "icinga/downtime.hpp"
 #include "icinga/notification.hpp"
@@ -63,7 +73,7 @@ static void Teardown()
 	l_Obj = nullptr;
 }
 
-static void Setup(bool isHost, int mx, bool vol, bool flap)
+static void Setup(bool isHost, int mx, bool vol, bool flap, int interval, long offset)
 {
 	Teardown();
 	l_CaseNo++;
@@ -95,11 +105,14 @@ static void Setup(bool isHost, int mx, bool vol, bool flap)
 	l_W.obj->SetMaxCheckAttempts(mx);
 	l_W.obj->SetVolatile(vol);
 	l_W.obj->SetEnableFlapping(flap);
+	l_W.obj->SetCheckInterval(interval);
 	l_W.obj->SetActive(true);
 	l_W.obj->Register();
 	l_W.obj->Activate();
 	l_W.obj->SetAuthority(true);
 	static_pointer_cast<ConfigObject>(l_W.obj)->OnAllConfigLoaded();
+	/* the constructor draws a random offset: fix it so that next_check is a function of the operations */
+	l_W.obj->SetSchedulingOffset(offset);
 
 	if (isHost) {
 		l_W.dep = new Dependency();
@@ -170,6 +183,10 @@ static void OpFire(long long dt, int viaTimer)
 	int indt = l_W.obj->IsInDowntime() ? 1 : 0;
 	int isflap = l_W.obj->IsFlapping() ? 1 : 0;
 	int likely = l_W.obj->IsLikelyToBeCheckedSoon() ? 1 : 0;
+	/* what "the next check is imminent" depends on, from the attributes (microseconds) */
+	int act = l_W.obj->GetEnableActiveChecks() ? 1 : 0;
+	long long ivl = llround(l_W.obj->GetCheckInterval() * 1e6);
+	long long nin = llround((l_W.obj->GetNextCheck() - (double)l_Now) * 1e6);
 	int precent = ParentRecoveryRecent() ? 1 : 0;
 	int fired = 1;
 	if (viaTimer) {
@@ -178,7 +195,64 @@ static void OpFire(long long dt, int viaTimer)
 	} else {
 		l_W.obj->FireSuppressedNotifications();
 	}
-	printf("F %lld %d | %d %d %d %d %d %d %d %d ; %d %d ; %s\n", dt, viaTimer, fired, paused, enabled, statesupp, indt, isflap, likely, precent,
+	printf("F %lld %d | %d %d %d %d %d %d %d %lld %lld %d ; %d %d ; %d ; %s\n", dt, viaTimer, fired, paused, enabled, statesupp, indt, isflap,
+		act, ivl, nin, precent,
+		(int)l_W.obj->GetSuppressedNotifications(), (int)l_W.obj->GetStateBeforeSuppression(), likely, NotifStr().c_str());
+}
+
+struct FEnvRec { int paused, enabled, statesupp, indt, isflap, act; long long ivl, nin; int precent; };
+
+static FEnvRec ReadFEnv()
+{
+	FEnvRec e;
+	e.paused = l_W.obj->IsPaused() ? 1 : 0;
+	e.enabled = l_W.obj->GetEnableNotifications() ? 1 : 0;
+	e.statesupp = (!l_W.obj->IsReachable(DependencyNotification) || l_W.obj->IsInDowntime() || l_W.obj->IsAcknowledged()) ? 1 : 0;
+	e.indt = l_W.obj->IsInDowntime() ? 1 : 0;
+	e.isflap = l_W.obj->IsFlapping() ? 1 : 0;
+	e.act = l_W.obj->GetEnableActiveChecks() ? 1 : 0;
+	e.ivl = llround(l_W.obj->GetCheckInterval() * 1e6);
+	e.nin = llround((l_W.obj->GetNextCheck() - (double)l_Now) * 1e6);
+	e.precent = ParentRecoveryRecent() ? 1 : 0;
+	return e;
+}
+
+static int l_NestedState = -1;   /* armed: process this result inside the next notification callback */
+static char l_NestedObs[128];
+
+static void NestedResult(int state)
+{
+	int reach = l_W.obj->IsReachable(DependencyNotification) ? 1 : 0;
+	int wasFlap = l_W.obj->IsFlapping() ? 1 : 0;
+	int paused = l_W.obj->IsPaused() ? 1 : 0;
+	CheckResult::Ptr cr = MakeCr((ServiceState)state, (double)l_Now, (double)l_Now, true);
+	auto res = l_W.obj->ProcessCheckResult(cr);
+	snprintf(l_NestedObs, sizeof l_NestedObs, "%d %d %d %ld ; %d %d %d %d %d %d", (res == Checkable::ProcessingResult::Ok) ? 1 : 0,
+		(int)l_W.obj->GetStateRaw(), (int)l_W.obj->GetStateType(), (long)l_W.obj->GetCheckAttempt(),
+		reach, l_W.obj->IsInDowntime() ? 1 : 0, l_W.obj->IsAcknowledged() ? 1 : 0, wasFlap, l_W.obj->IsFlapping() ? 1 : 0, paused);
+}
+
+static void OpFireResult(long long dt, int state)
+{
+	l_Now += dt;
+	SetNow((double)l_Now);
+	l_Notifs.clear();
+	FEnvRec a = ReadFEnv();
+	int interleaved = 0;
+	if (!(l_W.obj->GetSuppressedNotifications() & (NotificationFlappingStart | NotificationFlappingEnd)))
+		l_NestedState = state;
+	l_W.obj->FireSuppressedNotifications();
+	if (l_NestedState >= 0) {      /* no callback happened: the result comes after the handler */
+		l_NestedState = -1;
+		NestedResult(state);
+	} else {
+		interleaved = 1;
+	}
+	FEnvRec b = ReadFEnv();
+	printf("FR %lld %d | 1 %d %d %d %d %d %d %lld %lld %d ; 1 %d %d %d %d %d %d %lld %lld %d ; %d %s ; %d %d ; %s\n", dt, state,
+		a.paused, a.enabled, a.statesupp, a.indt, a.isflap, a.act, a.ivl, a.nin, a.precent,
+		b.paused, b.enabled, b.statesupp, b.indt, b.isflap, b.act, b.ivl, b.nin, b.precent,
+		interleaved, l_NestedObs,
 		(int)l_W.obj->GetSuppressedNotifications(), (int)l_W.obj->GetStateBeforeSuppression(), NotifStr().c_str());
 }
 
@@ -243,12 +317,18 @@ static void OpParent(int state)
 static bool ExecLine(const char *line)
 {
 	char k; int a, b, c; long long x, y;
-	if (sscanf(line, "C %c %d %d %d", &k, &a, &b, &c) == 4) {
-		Setup(k == 'h', a, b != 0, c != 0);
-		printf("C %c %d %d %d\n", k, a, b, c);
+	int ivl = 300; long off = 0; int nf;
+	if ((nf = sscanf(line, "C %c %d %d %d %d %ld", &k, &a, &b, &c, &ivl, &off)) >= 4) {
+		if (nf < 5) ivl = 300;
+		if (nf < 6) off = 0;
+		Setup(k == 'h', a, b != 0, c != 0, ivl, off);
+		printf("C %c %d %d %d %d %ld\n", k, a, b, c, ivl, off);
 	} else if (sscanf(line, "R %d %lld %d", &a, &x, &b) == 3) {
 		if (a < 0) a = (int)l_W.obj->GetStateRaw(); /* "R -1": repeat the current state */
 		OpResult(a, x, b);
+	} else if (sscanf(line, "FR %lld %d", &x, &a) == 2) {
+		if (a < 0) a = (int)l_W.obj->GetStateRaw();
+		OpFireResult(x, a & 3);
 	} else if (sscanf(line, "F %lld %d", &x, &a) == 2) {
 		OpFire(x, a);
 	} else if (sscanf(line, "D+ %d", &a) == 1) {
@@ -269,6 +349,19 @@ static bool ExecLine(const char *line)
 	} else if (sscanf(line, "N %d", &a) == 1) {
 		l_W.obj->SetEnableNotifications(a != 0);
 		printf("N %d |\n", a);
+	} else if (sscanf(line, "E %d", &a) == 1) {
+		l_W.obj->SetEnableActiveChecks(a != 0);
+		printf("E %d |\n", a);
+	} else if (sscanf(line, "X %lld", &x) == 1) {
+		l_W.obj->SetNextCheck((double)(l_Now + x));
+		printf("X %lld |\n", x);
+	} else if (sscanf(line, "Y %d %d", &a, &b) == 2) {
+		a &= (NotificationProblem | NotificationRecovery | NotificationFlappingStart | NotificationFlappingEnd);
+		if ((a & NotificationFlappingStart) && (a & NotificationFlappingEnd)) /* never both: they cancel when stashed */
+			a &= ~NotificationFlappingEnd;
+		l_W.obj->SetSuppressedNotifications(a);
+		l_W.obj->SetStateBeforeSuppression((ServiceState)(b & 3));
+		printf("Y %d %d |\n", a, b & 3);
 	} else {
 		return false;
 	}
@@ -290,18 +383,30 @@ static void RandomOp(Rng& rng, char *buf, size_t n, int pFlapBias)
 		else st = (int)rng.below(4);
 		static const int dts[] = {0, 1, 5, 10, 60, 300, 400};
 		snprintf(buf, n, "R %d %d %d", st, dts[rng.below(7)], (int)rng.below(2));
-	} else if (k < 60) {
+	} else if (k < 57) {
 		static const int dts[] = {0, 1, 5, 30, 100, 400, 1000};
 		snprintf(buf, n, "F %d %d", dts[rng.below(7)], (int)rng.below(2));
+	} else if (k < 60) {
+		static const int xs[] = {-5, 0, 1, 10, 19, 20, 21, 35, 50, 59, 60, 61, 100, 1000};
+		snprintf(buf, n, "X %d", xs[rng.below(14)]);
 	} else if (k < 64) snprintf(buf, n, "D+ %d", (int)rng.below(2));
 	else if (k < 68) snprintf(buf, n, "DF %d", (int)rng.below(2));
 	else if (k < 76) snprintf(buf, n, "D- %d", (int)rng.below(2));
 	else if (k < 83) { static const int ex[] = {0, 0, 5, 100}; snprintf(buf, n, "A+ %d %d", (int)rng.below(2), ex[rng.below(4)]); }
 	else if (k < 87) snprintf(buf, n, "A-");
 	else if (k < 93) snprintf(buf, n, "P %d", (int)rng.below(2) ? 2 : 0);
-	else if (k < 97) snprintf(buf, n, "U %d", (int)rng.below(2));
-	else snprintf(buf, n, "N %d", (int)rng.below(2));
+	else if (k < 96) snprintf(buf, n, "U %d", (int)rng.below(2));
+	else if (k < 98) snprintf(buf, n, "N %d", (int)rng.below(2));
+	else if (k < 99) snprintf(buf, n, "E %d", (int)rng.below(2));
+	else {
+		static const int sups[] = {0, 32, 64, 96, 128, 256, 160, 320};
+		snprintf(buf, n, "Y %d %d", sups[rng.below(8)], (int)rng.below(4));
+	}
 }
+
+/* check intervals around the two ends of the clamp in IsLikelyToBeCheckedSoon (10 s and 70 s) */
+static const int kIntervals[] = {300, 300, 300, 300, 1, 5, 10, 11, 20, 30, 45, 60, 69, 70, 71, 90};
+static const int kIntervalsN = sizeof(kIntervals) / sizeof(kIntervals[0]);
 
 int main(int argc, char **argv)
 {
@@ -314,6 +419,11 @@ int main(int argc, char **argv)
 		if (checkable == l_Obj && (type == NotificationProblem || type == NotificationRecovery ||
 			type == NotificationFlappingStart || type == NotificationFlappingEnd))
 			l_Notifs.emplace_back((int)type, cr ? (int)cr->GetState() : -1);
+		if (checkable == l_Obj && l_NestedState >= 0) {
+			int st = l_NestedState;
+			l_NestedState = -1;
+			NestedResult(st);
+		}
 	});
 
 	std::string mode = argv[1];
@@ -346,13 +456,63 @@ int main(int argc, char **argv)
 			ExecLine("R -1 10 1");
 			ExecLine("F 30 1");
 		}
+		/* imminence sweep: a withheld event (Problem / Recovery / none owed), every suppression reason over, and the
+		 * handler run for every check interval x distance of the next check around the thresholds x active checks
+		 * on/off, directly after the result as the scheduler left next_check and after moving it */
+		{
+			static const int ivls[] = {0, 1, 5, 9, 10, 11, 12, 20, 30, 45, 59, 60, 61, 69, 70, 71, 72, 80, 120, 300, 3600};
+			for (int host = 0; host < 2; host++)
+			for (int scen = 0; scen < 3; scen++)
+			for (int act = 0; act < 2; act++)
+			for (size_t ii = 0; ii < sizeof(ivls) / sizeof(ivls[0]); ii++) {
+				int iv = ivls[ii];
+				int xs[] = {-1, 0, 1, iv - 11, iv - 10, iv - 9, 59, 60, 61, iv, 100000, 100001 /* = leave next_check alone */};
+				for (int xi = 0; xi < 12; xi++) {
+					char buf[64];
+					snprintf(buf, sizeof buf, "C %c 1 0 0 %d %d", host ? 'h' : 's', iv, (int)((ii * 37 + xi * 11) % 500));
+					ExecLine(buf);
+					ExecLine(scen == 1 ? "R 2 10 1" : "R 0 10 1");
+					ExecLine("D+ 0");
+					ExecLine(scen == 1 ? "R 0 10 1" : "R 2 10 1");
+					if (scen == 2) ExecLine("R 0 10 1");      /* back to the remembered state: nothing owed */
+					ExecLine("D- 0");
+					snprintf(buf, sizeof buf, "E %d", act);
+					ExecLine(buf);
+					if (xs[xi] != 100001) { snprintf(buf, sizeof buf, "X %d", xs[xi]); ExecLine(buf); }
+					ExecLine("F 0 0");
+					ExecLine("F 3 1");
+					ExecLine("X 100000");
+					ExecLine("F 5 0");
+				}
+			}
+		}
+		/* the handler with a result processed by "another thread" in the middle of it (F-C02c): one FR per case */
+		for (int host = 0; host < 2; host++)
+		for (int vol = 0; vol < 2; vol++)
+		for (int scen = 0; scen < 3; scen++)
+		for (int st = 0; st < 4; st++) {
+			char buf[64];
+			snprintf(buf, sizeof buf, "C %c 1 %d 0", host ? 'h' : 's', vol);
+			ExecLine(buf);
+			ExecLine(scen == 1 ? "R 2 10 1" : "R 0 10 1");
+			ExecLine("D+ 0");
+			ExecLine(scen == 1 ? "R 0 10 1" : "R 2 10 1");
+			if (scen != 2) ExecLine("D- 0");              /* scen 2: still suppressed, the handler requests nothing */
+			snprintf(buf, sizeof buf, "FR 100 %d", st);
+			ExecLine(buf);
+			ExecLine("D- 0");
+			ExecLine("F 400 0");
+			ExecLine("R -1 10 1");
+			ExecLine("F 100 0");
+		}
 		/* random part */
 		Rng rng(seed);
 		int n = thorough ? 60000 : 6000;
 		for (int i = 0; i < n; i++) {
 			char hdr[64];
 			int flap = (int)rng.below(2);
-			snprintf(hdr, sizeof hdr, "C %c %d %d %d", rng.coin() ? 'h' : 's', 1 + (int)rng.below(4), rng.below(4) == 0 ? 1 : 0, flap);
+			snprintf(hdr, sizeof hdr, "C %c %d %d %d %d %d", rng.coin() ? 'h' : 's', 1 + (int)rng.below(4), rng.below(4) == 0 ? 1 : 0, flap,
+				kIntervals[rng.below(kIntervalsN)], (int)rng.below(100000));
 			ExecLine(hdr);
 			int len = 1 + (int)rng.below(thorough ? 60 : 30);
 			for (int j = 0; j < len; j++) {
@@ -366,7 +526,8 @@ int main(int argc, char **argv)
 		int nf = thorough ? 8000 : 1200;
 		for (int i = 0; i < nf; i++) {
 			char hdr[64];
-			snprintf(hdr, sizeof hdr, "C %c %d %d 1", rng.coin() ? 'h' : 's', 1 + (int)rng.below(3), rng.below(6) == 0 ? 1 : 0);
+			snprintf(hdr, sizeof hdr, "C %c %d %d 1 %d %d", rng.coin() ? 'h' : 's', 1 + (int)rng.below(3), rng.below(6) == 0 ? 1 : 0,
+				kIntervals[rng.below(kIntervalsN)], (int)rng.below(100000));
 			ExecLine(hdr);
 			ExecLine("R 0 10 1");
 			int phases = 3 + (int)rng.below(6);
